@@ -14,7 +14,9 @@ def plan(tier, seed):
                          "params": dict(env_name=e, n=n, norm=norm, compositions=["XY", "YX"] if tier == "quick" else ["XY", "YX", "XXY", "YXX"])})
     # multi-start decoding: the decoder regroups its cache / the state between [B*S] and [B, S] (shared embeddings) or
     # replicates the cache (dynamic embeddings: SDVRP); row = start * B + instance
-    for e in (("tsp", "sdvrp") if tier == "quick" else ENVS):
+    # (mTSP is left out: MTSPContext._distance_from_depot gathers along the start dimension of the regrouped state and raises for
+    #  EVERY batch size under multi-start decoding -- a missing feature rather than a batch-composition effect)
+    for e in (("tsp", "sdvrp") if tier == "quick" else [x for x in ENVS if x != "mtsp"]):
         n = 4 if e == "pdp" else 3
         jobs.append({"id": f"C14:am {e} n={n} multistart S=2", "module": "vf.am", "func": "am_job",
                      "params": dict(env_name=e, n=n, norm="batch", num_starts=2, compositions=["XY", "YX"] if tier == "quick" else ["XY", "YX", "XXY"])})
